@@ -374,6 +374,11 @@ impl Machine {
     /// Drop a closure by decrementing its reference count.
     /// When refcount reaches 0, recursively drops captured closures and removes the closure.
     pub fn drop_closure(&mut self, id: ClosureIdx) {
+        #[cfg(mimium_verif)]
+        {
+            let rc = self.closures.get(id.0).map_or(0, |c| c.refcount.wrapping_sub(1));
+            verif::record_heap(b'c', b'-', id.0, self.closures.contains_key(id.0), rc);
+        }
         let cls = self.closures.get_mut(id.0).unwrap();
         cls.refcount -= 1;
         if cls.refcount == 0 {
@@ -408,6 +413,8 @@ impl Machine {
                     heap::heap_release(&mut self.heap, *heap_idx);
                 }
             });
+            #[cfg(mimium_verif)]
+            verif::record_heap(b'c', b'F', id.0, self.closures.contains_key(id.0), 0);
             self.closures.remove(id.0);
         }
     }
@@ -576,6 +583,8 @@ impl Machine {
     /// to obtain the underlying closure index from a `HeapIdx` value that lives
     /// on the VM stack.
     pub fn get_closure_idx_from_heap(&self, heap_idx: heap::HeapIdx) -> ClosureIdx {
+        #[cfg(mimium_verif)]
+        verif::record_heap(b'h', b'U', heap_idx, self.heap.contains_key(heap_idx), self.heap.get(heap_idx).map_or(0, |o| o.refcount));
         let heap_obj = self.heap.get(heap_idx).expect("Invalid HeapIdx");
         Self::get_as::<ClosureIdx>(heap_obj.data[0])
     }
@@ -598,6 +607,8 @@ impl Machine {
         (abs_pos..end, slice)
     }
     pub fn get_closure(&self, idx: ClosureIdx) -> &Closure {
+        #[cfg(mimium_verif)]
+        self.verif_check_closure_handle(idx);
         debug_assert!(
             self.closures.contains_key(idx.0),
             "Invalid Closure Id referred"
@@ -605,6 +616,8 @@ impl Machine {
         unsafe { self.closures.get_unchecked(idx.0) }
     }
     pub(crate) fn get_closure_mut(&mut self, idx: ClosureIdx) -> &mut Closure {
+        #[cfg(mimium_verif)]
+        self.verif_check_closure_handle(idx);
         debug_assert!(
             self.closures.contains_key(idx.0),
             "Invalid Closure Id referred"
@@ -690,6 +703,8 @@ impl Machine {
         let idx = self
             .closures
             .insert(Closure::new(&self.prog, self.base_pointer, fn_i, upv_map));
+        #[cfg(mimium_verif)]
+        verif::record_heap(b'c', b'A', idx, true, 1);
         ClosureIdx(idx)
     }
 
@@ -708,6 +723,8 @@ impl Machine {
         // Layout: [closure_idx_as_raw_val]
         let heap_obj = heap::HeapObject::with_data(vec![Self::to_value(closure_idx)]);
         let heap_idx = self.heap.insert(heap_obj);
+        #[cfg(mimium_verif)]
+        verif::record_heap(b'h', b'A', heap_idx, true, 1);
 
         log::trace!(
             "allocate_heap_closure: fn_i={fn_i}, heap_idx={heap_idx:?}, closure_idx={closure_idx:?}"
@@ -820,6 +837,11 @@ impl Machine {
         // wrapper closure will not be released automatically.
         cls.is_closed = true;
         let idx = self.closures.insert(cls);
+        #[cfg(mimium_verif)]
+        {
+            verif::record_heap(b'c', b'A', idx, true, 1);
+            verif::record_heap(b'c', b'C', idx, true, 1);
+        }
         ClosureIdx(idx)
     }
     fn close_upvalues(&mut self, src: Reg) {
@@ -866,7 +888,11 @@ impl Machine {
                 heap::heap_retain(&mut self.heap, *heap_idx);
             }
             self.get_closure_mut(*closure_idx).refcount += 1;
+            #[cfg(mimium_verif)]
+            verif::record_heap(b'c', b'+', closure_idx.0, true, self.closures[closure_idx.0].refcount);
         });
+        #[cfg(mimium_verif)]
+        verif::record_heap(b'c', b'C', clsidx.0, self.closures.contains_key(clsidx.0), self.closures.get(clsidx.0).map_or(0, |c| c.refcount));
         let cls = self.get_closure_mut(clsidx);
         cls.is_closed = true;
     }
@@ -1015,10 +1041,14 @@ impl Machine {
                         self.try_get_heap_backed_closure(heap_addr)
                     {
                         heap::heap_retain(&mut self.heap, heap_idx);
+                        #[cfg(mimium_verif)]
+                        verif::record_heap(b'c', b'+', closure_idx.0, self.closures.contains_key(closure_idx.0), self.closures.get(closure_idx.0).map_or(0, |c| c.refcount + 1));
                         if let Some(closure) = self.closures.get_mut(closure_idx.0) {
                             closure.refcount += 1;
                         }
                     } else if let Some(closure_idx) = self.try_get_direct_closure(heap_addr) {
+                        #[cfg(mimium_verif)]
+                        verif::record_heap(b'c', b'+', closure_idx.0, self.closures.contains_key(closure_idx.0), self.closures.get(closure_idx.0).map_or(0, |c| c.refcount + 1));
                         if let Some(closure) = self.closures.get_mut(closure_idx.0) {
                             closure.refcount += 1;
                         }
@@ -1029,12 +1059,16 @@ impl Machine {
                     let (_, src_data) = self.get_stack_range(src as i64, inner_size);
                     let data = src_data.to_vec();
                     let heap_idx = self.heap.insert(heap::HeapObject::with_data(data));
+                    #[cfg(mimium_verif)]
+                    verif::record_heap(b'h', b'A', heap_idx, true, 1);
                     self.set_stack(dst as i64, Self::to_value(heap_idx));
                 }
                 Instruction::BoxLoad(dst, src, inner_size) => {
                     // Load data from heap to stack
                     let heap_addr = self.get_stack(src as i64);
                     let heap_idx = Self::get_as::<heap::HeapIdx>(heap_addr);
+                    #[cfg(mimium_verif)]
+                    verif::record_heap(b'h', b'U', heap_idx, self.heap.contains_key(heap_idx), self.heap.get(heap_idx).map_or(0, |o| o.refcount));
                     let heap_obj = self
                         .heap
                         .get(heap_idx)
@@ -1057,6 +1091,8 @@ impl Machine {
                     let heap_idx = Self::get_as::<heap::HeapIdx>(heap_addr);
                     let (_, src_data) = self.get_stack_range(src as i64, inner_size);
                     let data = src_data.to_vec();
+                    #[cfg(mimium_verif)]
+                    verif::record_heap(b'h', b'U', heap_idx, self.heap.contains_key(heap_idx), self.heap.get(heap_idx).map_or(0, |o| o.refcount));
                     let heap_obj = self
                         .heap
                         .get_mut(heap_idx)
@@ -1470,6 +1506,18 @@ impl Machine {
     #[cfg(mimium_verif)]
     pub fn verif_global_state(&self) -> (&[u64], usize) {
         (&self.global_states.rawdata, self.global_states.pos)
+    }
+    /// Verification hook: record the dereference of a closure handle and check that it names a live closure
+    /// (`get_closure`/`get_closure_mut` index the slot map with `get_unchecked`).
+    #[cfg(mimium_verif)]
+    fn verif_check_closure_handle(&self, idx: ClosureIdx) {
+        let valid = self.closures.contains_key(idx.0);
+        verif::record_heap(b'c', b'U', idx.0, valid, self.closures.get(idx.0).map_or(0, |c| c.refcount));
+        assert!(
+            valid,
+            "mimium_verif: closure handle dereferenced after release: key={:#x}",
+            verif::key_bits(idx.0)
+        );
     }
     /// Verification hook: record one state access (kind, cursor, size) and check that it lies inside the storage.
     #[cfg(mimium_verif)]
